@@ -1,6 +1,38 @@
--- shard 10 of the closeness / tick-gap sweep (C06 (c), (e)): |tick| in [327680, 360448)
+-- shard 10 of the closeness / tick-gap sweep (C06 (c), (e)): |tick| in [327680, 360448), 16 blocks of 2^11
 import Proofs.Lemmas.ClosePred
 namespace Demeter.TickClose
 set_option maxRecDepth 100000 in
-theorem close_shard_10 : chkN closeSweepPred 327680 shardBits = true := by decide +kernel
+theorem close_blk_327680 : chkN closeSweepPred 327680 11 = true := by decide +kernel
+set_option maxRecDepth 100000 in
+theorem close_blk_329728 : chkN closeSweepPred 329728 11 = true := by decide +kernel
+set_option maxRecDepth 100000 in
+theorem close_blk_331776 : chkN closeSweepPred 331776 11 = true := by decide +kernel
+set_option maxRecDepth 100000 in
+theorem close_blk_333824 : chkN closeSweepPred 333824 11 = true := by decide +kernel
+set_option maxRecDepth 100000 in
+theorem close_blk_335872 : chkN closeSweepPred 335872 11 = true := by decide +kernel
+set_option maxRecDepth 100000 in
+theorem close_blk_337920 : chkN closeSweepPred 337920 11 = true := by decide +kernel
+set_option maxRecDepth 100000 in
+theorem close_blk_339968 : chkN closeSweepPred 339968 11 = true := by decide +kernel
+set_option maxRecDepth 100000 in
+theorem close_blk_342016 : chkN closeSweepPred 342016 11 = true := by decide +kernel
+set_option maxRecDepth 100000 in
+theorem close_blk_344064 : chkN closeSweepPred 344064 11 = true := by decide +kernel
+set_option maxRecDepth 100000 in
+theorem close_blk_346112 : chkN closeSweepPred 346112 11 = true := by decide +kernel
+set_option maxRecDepth 100000 in
+theorem close_blk_348160 : chkN closeSweepPred 348160 11 = true := by decide +kernel
+set_option maxRecDepth 100000 in
+theorem close_blk_350208 : chkN closeSweepPred 350208 11 = true := by decide +kernel
+set_option maxRecDepth 100000 in
+theorem close_blk_352256 : chkN closeSweepPred 352256 11 = true := by decide +kernel
+set_option maxRecDepth 100000 in
+theorem close_blk_354304 : chkN closeSweepPred 354304 11 = true := by decide +kernel
+set_option maxRecDepth 100000 in
+theorem close_blk_356352 : chkN closeSweepPred 356352 11 = true := by decide +kernel
+set_option maxRecDepth 100000 in
+theorem close_blk_358400 : chkN closeSweepPred 358400 11 = true := by decide +kernel
+theorem close_shard_10 : chkN closeSweepPred 327680 shardBits = true :=
+  (chkN_join _ 327680 14 (chkN_join _ 327680 13 (chkN_join _ 327680 12 (chkN_join _ 327680 11 close_blk_327680 close_blk_329728) (chkN_join _ 331776 11 close_blk_331776 close_blk_333824)) (chkN_join _ 335872 12 (chkN_join _ 335872 11 close_blk_335872 close_blk_337920) (chkN_join _ 339968 11 close_blk_339968 close_blk_342016))) (chkN_join _ 344064 13 (chkN_join _ 344064 12 (chkN_join _ 344064 11 close_blk_344064 close_blk_346112) (chkN_join _ 348160 11 close_blk_348160 close_blk_350208)) (chkN_join _ 352256 12 (chkN_join _ 352256 11 close_blk_352256 close_blk_354304) (chkN_join _ 356352 11 close_blk_356352 close_blk_358400))))
 end Demeter.TickClose
